@@ -6,9 +6,10 @@ Line protocol of C01.
 `eval <tokens…>` — the words after `eval` are a prefix encoding of an expression:
   `T` top | `B` bottom | `i<int>` | `s<nat>` (n-th string constant) | `b0` | `b1` | `N` null
   | `tI` | `tS` | `tB` | `r<lo>:<hi>` (lo, hi an integer or `*`)
-  | `&` e e | `c` e (close) | `{` n d1 … dn
+  | `&` e e | `c` e (close) | `{` n d1 … dn | `[` n e1 … en (closed list)
   declaration: `f<l>.` e (regular) | `f<l>?` e (optional) | `f<l>!` e (required) | `e` e (embedding)
-answer: `bot` | `T` | scalar token (normalised) | `{<l><t>:<val>,…}` followed by `c` if closed.
+answer: `bot` | `T` | scalar token (normalised) | `{<l><t>:<val>,…}` followed by `c` if closed
+  | `[<val>,…]`.
 -/
 namespace CueVerif.Driver.C01
 open CueVerif CueVerif.Driver CueVerif.Core
@@ -79,10 +80,30 @@ def parseExpr : Nat → List String → Option (Expr × List String)
           | none => none
         | none => none
       | [] => none
+    else if tok == "[" then
+      match rest with
+      | nTok :: rest1 =>
+        match nTok.toNat? with
+        | some n =>
+          match parseList fuel n rest1 with
+          | some (es, rest2) => some (.list es, rest2)
+          | none => none
+        | none => none
+      | [] => none
     else
       match parseSc tok with
       | some s => some (.lit s, rest)
       | none => none
+def parseList : Nat → Nat → List String → Option (Exprs × List String)
+  | 0, _, _ => none
+  | _ + 1, 0, ts => some (.nil, ts)
+  | fuel + 1, n + 1, ts =>
+    match parseExpr fuel ts with
+    | some (e, rest1) =>
+      match parseList fuel n rest1 with
+      | some (es, rest2) => some (.cons e es, rest2)
+      | none => none
+    | none => none
 def parseDecls : Nat → Nat → List String → Option (Decls × List String)
   | 0, _, _ => none
   | _ + 1, 0, ts => some (.nil, ts)
@@ -135,10 +156,14 @@ def showVal : Val → String
   | .top => "T"
   | .sc s => showSc s
   | .struct xs c => "{" ++ ",".intercalate (showSlots 0 xs) ++ "}" ++ (if c then "c" else "")
+  | .list vs => "[" ++ ",".intercalate (showVals vs) ++ "]"
 def showSlots : Nat → Slots → List String
   | _, .nil => []
   | i, .cons .none rest => showSlots (i + 1) rest
   | i, .cons (.some t v) rest => (toString i ++ showTy t ++ ":" ++ showVal v) :: showSlots (i + 1) rest
+def showVals : Vals → List String
+  | .nil => []
+  | .cons v rest => showVal v :: showVals rest
 end
 
 /-- protocol handler for C01: words of one op line (after the property id) → answer -/
